@@ -244,7 +244,9 @@ pub fn message_strategy() -> BoxedStrategy<Vec<u8>> {
         6 => 3usize..65,
         2 => 94usize..99,
         2 => 230usize..235,
+        1 => 254usize..259,
         1 => 1000usize..1100,
+        1 => prop_oneof![4094usize..4099, 65534usize..65539],
     ];
     let fill = prop_oneof![6 => Just(None), 1 => Just(Some(0u8)), 1 => Just(Some(0xFFu8))];
     (len, fill, any::<u64>())
